@@ -36,6 +36,9 @@ def main():
     d0 = subprocess.run(["/venv/bin/python", str(seed / "demo.py")], env=env, capture_output=True, text=True, cwd=repo)
     out["demo_clean_exit"] = d0.returncode
     a = sh(f"git -C {repo} apply {seed / 'patch.diff'}")
+    if a.returncode != 0:  # the tree moved on since the change was written: allow fuzz
+        a = sh(f"cd {repo} && patch -p1 -F3 --no-backup-if-mismatch < {seed / 'patch.diff'}")
+        out["applied_with_fuzz"] = a.returncode == 0
     out["patch_applies"] = a.returncode == 0
     if a.returncode != 0:
         out["apply_error"] = a.stderr[-500:]
